@@ -44,6 +44,7 @@ func propC15(w *World, r *Report) {
 	RunLigCondition(w, r)
 	RunKernPairFirst(w, r)
 	RunRequiredInit(w, r)
+	RunKernStride(w, r)
 }
 
 func checkFindLookups(w *World, r *Report) {
@@ -1141,7 +1142,7 @@ func isEmptinessTest(v ssa.Value) bool {
 // makes feature 0 required. Every Features value the library builds says what
 // it means: the composite literal sets Required.
 func RunRequiredInit(w *World, r *Report) {
-	r.Rule("requiredinit: every composite literal of gtab.Features in the library sets the field Required explicitly (its zero value makes feature 0 the required feature, which the caller's feature switches cannot turn off)")
+	r.Rule("requiredinit: every composite literal of gtab.Features in the library sets the field Required explicitly (its zero value makes feature 0 the required feature, which the caller's feature switches cannot turn off), and a table synthesised in package sfnt sets it to 0xFFFF (no required feature)")
 	n := 0
 	for _, p := range w.Pkgs {
 		if !isLibPkg(p.PkgPath) {
@@ -1183,14 +1184,25 @@ func RunRequiredInit(w *World, r *Report) {
 				}
 				key := r.MkKey("requiredinit", fnn, "gtab.Features literal")
 				has := false
+				forced := ""
 				for _, el := range cl.Elts {
 					if kv, ok := el.(*ast.KeyValueExpr); ok {
 						if id, ok := kv.Key.(*ast.Ident); ok && id.Name == "Required" {
 							has = true
+							// a table the library makes up itself (outside package gtab) has no business forcing a feature on
+							if tv, ok := p.TypesInfo.Types[kv.Value]; ok && tv.Value != nil && p.PkgPath == modPath {
+								if v, ok := constant.Int64Val(tv.Value); ok && v != 0xFFFF {
+									forced = tv.Value.ExactString()
+								}
+							}
 						}
 					} else {
 						has = true // positional: all fields given
 					}
+				}
+				if forced != "" {
+					r.FailC("requiredinit", key, []string{"forced"}, w.Pos(cl.Pos()), "this table, which the library synthesises itself, names feature "+forced+" as the required feature of its language system: it is applied whatever the caller's feature switches say (switching it off has no effect)", nil)
+					return true
 				}
 				if has {
 					r.OK("requiredinit", key, w.Pos(cl.Pos()), "Required is set")
@@ -1202,4 +1214,106 @@ func RunRequiredInit(w *World, r *Report) {
 		}
 	}
 	r.Floor("requiredinit", 2)
+}
+
+// RunKernStride: the subtables of a kern table follow each other at the
+// distance their length field declares (bytes 2,3 of the subtable header);
+// kern.Read steps from one subtable to the next by that length on every path
+// — not by a size it computes from the number of pairs, which ignores any
+// slack a writer left behind the pairs.
+func RunKernStride(w *World, r *Report) {
+	r.Rule("kernstride: in kern.Read every value that flows around the subtable loop into the position of the next subtable is the previous position plus a value computed from bytes 2 and 3 of the subtable header (the declared length) and from nothing else that is read from the table")
+	fn := w.Func("kern.Read")
+	if fn == nil {
+		r.Fatal("kern.Read does not resolve")
+		return
+	}
+	n := 0
+	for _, l := range naturalLoops(fn) {
+		for _, hin := range l.head.Instrs {
+			ph, ok := hin.(*ssa.Phi)
+			if !ok {
+				break
+			}
+			bt, ok := ph.Type().Underlying().(*types.Basic)
+			if !ok || bt.Kind() != types.Int64 {
+				continue
+			}
+			// the position: used as argument of SeekPos
+			isPos := false
+			if ph.Referrers() != nil {
+				for _, ref := range *ph.Referrers() {
+					if c, ok := ref.(*ssa.Call); ok && c.Call.StaticCallee() != nil && c.Call.StaticCallee().Name() == "SeekPos" {
+						isPos = true
+					}
+				}
+			}
+			if !isPos {
+				continue
+			}
+			n++
+			key := r.MkKey("kernstride", "kern.Read", "position of the next subtable")
+			bad := ""
+			var check func(v ssa.Value, seen map[ssa.Value]bool)
+			check = func(v ssa.Value, seen map[ssa.Value]bool) {
+				if seen[v] || v == ssa.Value(ph) {
+					return
+				}
+				seen[v] = true
+				switch x := v.(type) {
+				case *ssa.Phi:
+					for _, e := range x.Edges {
+						check(e, seen)
+					}
+				case *ssa.BinOp:
+					if x.Op == token.ADD && x.X == ssa.Value(ph) {
+						has2, has3 := false, false
+						for u := range backSlice(x.Y) {
+							switch y := u.(type) {
+							case *ssa.IndexAddr:
+								if k, ok := bconstInt(y.Index); ok {
+									if k == 2 {
+										has2 = true
+									}
+									if k == 3 {
+										has3 = true
+									}
+								}
+							case *ssa.Call:
+								if c := y.Call.StaticCallee(); c != nil && strings.HasPrefix(c.Name(), "ReadUint") {
+									bad = "a value read later from the table (" + c.Name() + " at " + w.Pos(y.Pos()) + ")"
+								}
+							}
+						}
+						if !has2 || !has3 {
+							if bad == "" {
+								bad = "a step that is not computed from the length field (bytes 2,3 of the header)"
+							}
+						}
+						return
+					}
+					if x.Op == token.ADD {
+						check(x.X, seen)
+						return
+					}
+					bad = "a value that is not the previous position plus a step"
+				default:
+					bad = "a value that is not the previous position plus a step"
+				}
+			}
+			for i, e := range ph.Edges {
+				if l.head.Dominates(l.head.Preds[i]) {
+					check(e, map[ssa.Value]bool{})
+				}
+			}
+			if bad == "" {
+				r.OK("kernstride", key, w.Pos(ph.Pos()), "advanced by the declared length on every path")
+			} else {
+				r.Fail("kernstride", key, w.Pos(ph.Pos()), "the position of the next subtable is advanced by "+bad+": a subtable whose declared length includes slack behind its pairs is followed by a header read from the wrong place, and the table is rejected or mis-read", nil)
+			}
+		}
+	}
+	if n == 0 {
+		r.Fail("kernstride", r.MkKey("kernstride", "kern.Read", "position of the next subtable"), w.Pos(fn.Pos()), "no loop-carried position that is passed to SeekPos found in kern.Read", nil)
+	}
 }
